@@ -37,6 +37,15 @@ def run(ctx):
     thorough = ctx.tier == "thorough"
     model(ctx)
     model_c(ctx, thorough)
+    # the concrete gate level bound to the code: the real gate functions on a cloud key set built from the embedded key material of the MachineC instance;
+    # TLC recomputes the bit-exact reduced gate (linear combination, modulus switch, blind rotation, extraction, key switch) for every recorded call
+    from vlib import ringreplay as rr
+    for inst, tag, be, kind in [(rr.INST_C2, "C2", "spqlios-fma", "optim"), (rr.INST_A, "A", "nayuki-portable", "debug")] + ([(rr.INST_B, "B", "fftw", "optim"), (rr.INST_C2, "C2", "nayuki-avx", "optim"), (rr.INST_G, "G", "spqlios-avx", "debug")] if thorough else []):
+        bad, rows = rr.replay(ctx, inst, tag, be, kind, ("gate",), ctx.seed)
+        if bad and "crash" in bad:
+            ctx.violation("%s (%s/%s, gate calls on instance %s)" % (bad["crash"], be, kind, tag), key="h_boot gate replay crash %s %s %s" % (tag, be, kind))
+        elif bad:
+            ctx.violation("a gate function on %s/%s deviates from the bit-exact reduced gate of MachineC (instance %s): row %s" % (be, kind, tag, (bad["row"] or "")[:300]), detail=bad, files=[bad["rows_file"]])
     full = None
     some = ["--", "boot", "const"]
     if thorough:
